@@ -14,17 +14,36 @@ from concurrent.futures import ThreadPoolExecutor
 from vlib import common
 
 GO_SOCKS = dict(module="app", pkg="internal/socks5", pkgname="socks5",
-                files={"zz_verif_c18_test.go": "c18/c18_socks_test.go"}, run="TestVerifC18Socks")
+                files={"zz_verif_c18_test.go": "c18/c18_socks_test.go", "zz_verif_c18_relay_test.go": "c18/c18_relay_socks_test.go",
+                       "zz_verif_c18_relay_common_test.go": "_gen/c18_relay_common_socks5_test.go"}, run="TestVerifC18Socks")
 GO_HTTP = dict(module="app", pkg="internal/http", pkgname="http",
-               files={"zz_verif_c18_test.go": "c18/c18_http_test.go"}, run="TestVerifC18HTTP")
+               files={"zz_verif_c18_test.go": "c18/c18_http_test.go", "zz_verif_c18_relay_test.go": "c18/c18_relay_http_test.go",
+                      "zz_verif_c18_relay_common_test.go": "_gen/c18_relay_common_http_test.go"}, run="TestVerifC18HTTP")
 GO_MUX = dict(module="app", pkg="internal/proxymux", pkgname="proxymux",
-              files={"zz_verif_c18_test.go": "c18/c18_mux_test.go"}, run="TestVerifC18Mux")
+              files={"zz_verif_c18_test.go": "c18/c18_mux_test.go", "zz_verif_c18_relay_test.go": "c18/c18_relay_mux_test.go",
+                     "zz_verif_c18_relay_common_test.go": "_gen/c18_relay_common_proxymux_test.go"}, run="TestVerifC18Mux")
 GO_ALL = [GO_SOCKS, GO_HTTP, GO_MUX]
 GO = GO_SOCKS
-KIND_SPEC = {"socks": 0, "http": 1, "cached": 1, "mux": 2, "onebyte": 2, "muxd1": 2, "muxd2": 2}
+KIND_SPEC = {"socks": 0, "http": 1, "cached": 1, "mux": 2, "onebyte": 2, "muxd1": 2, "muxd2": 2,
+             "rsocks": 0, "rhttp": 1, "rmux": 2}
+RELAY_KINDS = ("rsocks", "rhttp", "rmux")
+
+
+def make_relay_common():
+    """Instantiate the relay-phase harness shared by the three packages (same mechanism as common.make_util)."""
+    import os
+    d = os.path.join(common.VERIF, "harness", "go", "_gen")
+    os.makedirs(d, exist_ok=True)
+    tmpl = open(os.path.join(common.VERIF, "harness", "go", "c18", "c18_relay_common_test.go.tmpl")).read()
+    for pkg in ("socks5", "http", "proxymux"):
+        p = os.path.join(d, "c18_relay_common_%s_test.go" % pkg)
+        text = tmpl.replace("__PKG__", pkg)
+        if not os.path.exists(p) or open(p).read() != text:
+            with open(p, "w") as f:
+                f.write(text)
 
 PARAMS_NAME = "ParamsC18"
-HEADER = ("From Hy Require Import lib.Harness model.C18_Inbounds corr.C18_Corr.\nFrom Coq Require Import ZArith.\n"
+HEADER = ("From Hy Require Import lib.Harness model.C18_Inbounds model.C18_Relay corr.C18_Corr.\nFrom Coq Require Import ZArith.\n"
           "Local Open Scope N_scope.\n")
 RULE = ("seeded generator. SOCKS5: byte scripts built from greeting / USER-PASS / request messages with valid and invalid versions, "
         "method lists with and without 0x02, right and wrong credentials, zero and lying length bytes, truncation at every message, "
@@ -45,7 +64,14 @@ RULE = ("seeded generator. SOCKS5: byte scripts built from greeting / USER-PASS 
         "Transfer-Encoding: chunked, both) in front of tunnel payload, split at every point. cachedConn / connWithOneByte: random buffers, chunkings and read sizes incl. zero. "
         "Mux: random histories of ListenSOCKS/ListenHTTP/sub-listener Close/Accept/incoming/first byte/read error (each behind 0..n "
         "zero-length reads) on a muxListener in a "
-        "synctest bubble, observed at every quiescent point and replayed against the LTS. Non-trivial = an upstream was opened, or "
+        "synctest bubble, observed at every quiescent point and replayed against the LTS. "
+        "Relay phase (handleTCP / handleConnect after the dial; SOCKS5, HTTP CONNECT, and both behind the shared port) on scripted "
+        "client and upstream conns that are not kernel sockets, in a synctest bubble: both directions carry (distinct) data; reads of "
+        "0, 1, many and more-than-the-copy-buffer bytes; a side's last bytes arriving together with io.EOF / with another error / before a "
+        "bare EOF / never followed by anything; payload pipelined in the same read as the SOCKS5 request / CONNECT header (cachedConn) "
+        "and behind the mux's detection byte (connWithOneByte); a Write of one direction stalled until the opposite direction has delivered "
+        "data while that delivery waits for the Write to be in progress (either direction, both, random event gates); sinks refusing a "
+        "Write; the whole log of Read / Write / Close calls is replayed against the relay LTS. Non-trivial = an upstream was opened, or "
         "credentials were rejected, or a connection was handed over / closed by the mux. Distinct = distinct JSON case.")
 ASSUMPTIONS = [
     "net/http.ReadRequest, net/url's parser and textproto are not modelled: a request reaches the model as net/http parsed it (method, raw request-target, its form, URL.Scheme, URL.Host, req.Host, raw Proxy-Authorization value, keep-alive condition) - the harness runs http.ReadRequest over the same byte stream independently of the server and reports the result; URL.Hostname/Port, net.SplitHostPort, net.JoinHostPort and the Transport's canonicalAddr ARE modelled and compared on every case (ASCII hosts)",
@@ -54,6 +80,7 @@ ASSUMPTIONS = [
     "the base listener of the shared port fails only after it was closed by the mux itself (a spontaneous base Accept error is outside the property's events)",
     "each lock/unlock pair and each channel operation of mux.go is one atomic section of the LTS (read from the source; supported by -race in the thorough tier)",
     "plain-HTTP forwarding through http.Client/http.Transport is observed only at HyClient.TCP (one dial per request: the scripted upstream answers Connection: close)",
+    "relay phase: the two conns are scripted fakes (no ReadFrom / WriteTo fast path, as cachedConn / connWithOneByte / a Hysteria stream have none); a stalled Write reads its argument when it resumes; deadlines are ignored by the fakes",
     "the client's address (conn.RemoteAddr) is varied by the harnesses (loopback, private, link-local, public, v4/v6) but is not an input of the model: the code reads it only for logging",
 ]
 TRUSTED = ["modelled rather than verified: app/internal/socks5/server.go, app/internal/http/server.go, app/internal/proxymux/mux.go and the three "
@@ -716,8 +743,165 @@ def gen_mux(rng, tier):
     return cases
 
 
+# ------------------------------------------------------------------ relay phase on scripted conns
+def relay_header(rng, inb, auth):
+    """the negotiation / header part of a client stream that leads to an upstream dial"""
+    if inb == "socks":
+        while True:
+            req = s_request(rng, cmd=1, atyp=rng.choice([1, 3, 4]), ver=5)
+            if not (req[3] == 3 and req[4] == 0):
+                break
+        if auth:
+            return s_greet(rng, rng.choice(["up", "both", "both2"])) + s_userpass(rng, "right") + req
+        return s_greet(rng, rng.choice(["none", "both"])) + req
+    host, port = rng.choice([(b"example.com", b"443"), (b"a.b", b"8080"), (b"10.1.2.3", b"22"), (b"[::1]", b"443")])
+    good = b"Basic " + b64(USER + b":" + PASS)
+    raw, _ = http_req(rng, True, host, port, good if auth else rng.choice([None, b"Basic xx"]), False, 200)
+    return raw
+
+
+def relay_chop(rng, data, mode):
+    """a payload as read items: list of byte strings (an empty one = a Read returning (0, nil))"""
+    if not data:
+        return []
+    if mode == "whole":
+        return [data]
+    if mode == "bytes":
+        return [bytes([b]) for b in data]
+    out, i = [], 0
+    while i < len(data):
+        n = rng.choice([1, 1, 2, 3, 7, 17, 100, 1000])
+        out.append(data[i:i + n])
+        i += n
+        if rng.random() < 0.15:
+            out.append(b"")
+    return out
+
+
+def gen_relay(rng, tier):
+    """RELAY phase of both inbounds (alone and behind the shared port) on conns that are not kernel sockets:
+    both directions carry data; reads of 1 byte, zero bytes, many bytes and more than the copy buffer; the
+    last bytes of a side delivered together with io.EOF / with another error / followed by a bare EOF /
+    never followed by anything; bytes pipelined behind the SOCKS5 request / the CONNECT header in the same
+    read (cachedConn) and behind the detection byte of the shared port (connWithOneByte); a Write of one
+    direction stalled until the opposite direction has delivered data (and that delivery waiting until the
+    Write is in progress), in either direction and in both; sinks that refuse a Write."""
+    cases = []
+    n_each = {"rsocks": 44, "rhttp": 56, "rmux": 32} if tier == "quick" else {"rsocks": 400, "rhttp": 500, "rmux": 300}
+    huge_left = {"rsocks": 2, "rhttp": 2, "rmux": 1} if tier == "quick" else {"rsocks": 8, "rhttp": 8, "rmux": 4}
+    ends = ["dataeof", "dataeof", "eof", "dataerr", "err", "hold"]
+    for kind, n in n_each.items():
+        for ci in range(n):
+            inb = {"rsocks": "socks", "rhttp": "http"}.get(kind) or rng.choice(["socks", "http"])
+            auth = rng.random() < 0.4
+            header = relay_header(rng, inb, auth)
+            huge = huge_left[kind] > 0 and ci % 9 == 4
+            if huge:
+                huge_left[kind] -= 1
+            # ---- the two payloads (distinct contents: a byte of one direction showing up in the other is visible)
+            ulen = rng.choice([0, 1, 2, 5, 40, 200, 600]) if ci % 7 else rng.choice([1, 40, 3000])
+            dlen = rng.choice([0, 1, 3, 30, 150, 500]) if ci % 5 else rng.choice([2, 64, 2500])
+            if ci % 4 == 0:
+                ulen, dlen = max(ulen, 8), max(dlen, 8)
+            upay = bytes(rng.randrange(256) for _ in range(ulen))
+            dpay = bytes(rng.randrange(256) for _ in range(dlen))
+            uparts, dparts = [{"hex": hx(upay)}], [{"hex": hx(dpay)}]
+            umode = rng.choice(["whole", "bytes", "rand", "rand"]) if ulen <= 64 else rng.choice(["whole", "rand", "rand"])
+            dmode = rng.choice(["whole", "bytes", "rand", "rand"]) if dlen <= 64 else rng.choice(["whole", "rand", "rand"])
+            uitems = [{"hex": hx(b)} for b in relay_chop(rng, upay, umode)]
+            ditems = [{"hex": hx(b)} for b in relay_chop(rng, dpay, dmode)]
+            if huge:
+                gd = [rng.randrange(1, 256) | 1, rng.randrange(256), rng.choice([32768, 32769, 40000, 70001])]
+                if rng.random() < 0.5:
+                    uitems.insert(rng.randrange(len(uitems) + 1), {"gd": gd})
+                    # the payload in order of the items
+                    uparts = [{"gd": it["gd"]} if "gd" in it else {"hex": it["hex"]} for it in uitems]
+                else:
+                    ditems.insert(rng.randrange(len(ditems) + 1), {"gd": gd})
+                    dparts = [{"gd": it["gd"]} if "gd" in it else {"hex": it["hex"]} for it in ditems]
+            # ---- how the header part is read, and what is pipelined behind it in the same read
+            hmode = rng.choice(["alone", "pipe", "pipe", "bytes", "cut"])
+            if hmode == "alone":
+                hitems = [{"hex": hx(header)}]
+            elif hmode == "bytes":
+                hitems = [{"hex": hx(bytes([b]))} for b in header]
+            elif hmode == "cut":
+                cut = rng.randrange(1, len(header))
+                hitems = [{"hex": hx(header[:cut])}, {"hex": ""}, {"hex": hx(header[cut:])}]
+            else:
+                # the first payload items travel in the same read as the end of the header
+                k = 0
+                glued = b""
+                while k < len(uitems) and "hex" in uitems[k] and len(glued) < 3000 and (k == 0 or rng.random() < 0.6):
+                    glued += bytes.fromhex(uitems[k]["hex"])
+                    k += 1
+                uitems = uitems[k:]
+                cut = rng.choice([0, 0, rng.randrange(1, len(header))])
+                hitems = ([{"hex": hx(header[:cut])}] if cut else []) + [{"hex": hx(header[cut:] + glued)}]
+            nh = len(hitems)
+            cr = hitems + uitems
+            ur = ditems
+            # ---- how the two sides end
+            cend, uend = rng.choice(ends), rng.choice(ends + ["hold", "hold"])
+            chold = uhold = False
+
+            def finish(items, end, first):
+                """first = index of the first item that may carry the error (payload items only)"""
+                if end == "hold":
+                    return True
+                if end in ("dataeof", "dataerr") and len(items) > first:
+                    items[-1]["err"] = "eof" if end == "dataeof" else "err"
+                else:
+                    items.append({"hex": "", "err": "err" if end in ("err", "dataerr") else "eof"})
+                return False
+            # a header read that carries the error would end the negotiation, not the relay: only when payload is glued to it
+            cfirst = nh if hmode != "pipe" else nh - 1
+            if hmode == "pipe" and not glued:
+                cfirst = nh
+            chold = finish(cr, cend, cfirst)
+            uhold = finish(ur, uend, 0)
+            # ---- full-duplex overlap: a Write stalls until the opposite direction has delivered an item, and that item
+            # is only handed out once the Write is in progress
+            cw, uw = [], []
+
+            def wslot(lst, j):
+                while len(lst) <= j:
+                    lst.append({"n": -1})
+                return lst[j]
+            ov = rng.choice(["none", "up", "up", "down", "down", "both", "rand"]) if ci % 3 else rng.choice(["up", "down", "both"])
+            npay_c = [i for i in range(nh, len(cr)) if cr[i].get("hex", "x") != "" or "gd" in cr[i]]
+            ndat_u = [i for i in range(len(ur)) if ur[i].get("hex", "x") != "" or "gd" in ur[i]]
+            if ov in ("up", "both") and ndat_u:
+                j, k = rng.choice([0, 0, 0, 1, 2]), rng.choice(ndat_u[:3])
+                wslot(uw, j)["wait"] = ["ur%d" % k]
+                ur[k]["wait"] = ["uw%de" % j]
+            if ov in ("down", "both") and npay_c:
+                j, k = rng.choice([0, 0, 0, 1, 2]), rng.choice(npay_c[:3])
+                wslot(cw, j)["wait"] = ["cr%d" % k]
+                cr[k]["wait"] = ["cw%de" % j]
+            if ov == "rand":
+                for _ in range(rng.randint(1, 3)):
+                    side = rng.choice("cu")
+                    ev = rng.choice(["cr%d" % rng.randrange(nh, len(cr) + 1), "ur%d" % rng.randrange(len(ur) + 1),
+                                     "cw%d" % rng.randrange(3), "uw%de" % rng.randrange(3), "cw%de" % rng.randrange(3), "uw%d" % rng.randrange(3)])
+                    if rng.random() < 0.5:
+                        wslot(cw if side == "c" else uw, rng.randrange(3)).setdefault("wait", []).append(ev)
+                    else:
+                        lst, lo = (cr, nh) if side == "c" else (ur, 0)
+                        if len(lst) > lo:
+                            lst[rng.randrange(lo, len(lst))].setdefault("wait", []).append(ev)
+            # ---- a sink that refuses a Write (takes a prefix of it, or nothing)
+            if rng.random() < 0.12:
+                wslot(rng.choice([cw, uw]), rng.choice([0, 1, 3]))["n"] = rng.choice([0, 0, 1, 5])
+            cases.append({"k": kind, "inb": inb, "auth": auth, "user": hx(USER), "pass": hx(PASS), "tail": len(header),
+                          "cr": cr, "ur": ur, "cw": cw, "uw": uw, "chold": chold, "uhold": uhold, "peer": rng.choice(PEERS),
+                          "usrc": uparts, "dsrc": dparts, "shape": "%s/%s/%s/%s" % (hmode, cend, uend, ov)})
+    return cases
+
+
 def gen(rng, tier):
-    return gen_socks(rng, tier) + gen_http(rng, tier) + gen_http_forms(rng, tier) + gen_reads(rng, tier, "cached") + gen_reads(rng, tier, "onebyte") + gen_mux(rng, tier)
+    return (gen_socks(rng, tier) + gen_http(rng, tier) + gen_http_forms(rng, tier) + gen_reads(rng, tier, "cached") +
+            gen_reads(rng, tier, "onebyte") + gen_mux(rng, tier) + gen_relay(rng, tier))
 
 
 # ------------------------------------------------------------------ Coq terms
@@ -801,10 +985,82 @@ def hev_terms(ev):
 FORMS = {"origin": "FOrigin", "asterisk": "FAsterisk", "absolute": "FAbsolute", "authority": "FAuthority"}
 
 
+RERR = {"": "RN", "eof": "REOF", "err": "RE", "closed": "RE"}
+
+
+def parts_bytes(parts):
+    return b"".join(common.gen_data(*p["gd"]) if "gd" in p else bytes.fromhex(p["hex"]) for p in parts)
+
+
+def parts_term(parts):
+    ts = []
+    for p in parts:
+        if "gd" in p:
+            ts.append("gen_data %d %d %d" % tuple(p["gd"]))
+        elif p["hex"]:
+            ts.append(cb(p["hex"]))
+    return "(" + " ++ ".join(ts) + ")" if ts else "(@nil byte)"
+
+
+def relay_term(c, o):
+    """the relay phase as the scripted conns saw it, in the global order of the log: the reads on the client
+    conn after the dial and the Writes on the upstream conn (client -> upstream), the reads on the upstream conn
+    and the relay-phase Writes on the client conn (upstream -> client), the Close calls.  pre = what the
+    inbound had read beyond the header part before it dialled (bufio's read-ahead, handed to the loop by
+    cachedConn).  Byte strings are written as slices of the two payloads where they are such slices."""
+    ev = o["ev"]
+    tail = c["tail"]
+    dial = next((e["q"] for e in ev if e["op"] == "tcp"), None)
+    if dial is None:
+        return None
+    before = b"".join(bytes.fromhex(e["d"]) for e in ev if e["s"] == "c" and e["op"] == "r" and e["q"] < dial)
+    if len(before) < tail:
+        return None
+    pre = before[tail:]
+    usrc, dsrc = parts_bytes(c["usrc"]), parts_bytes(c["dsrc"])
+    pos = {"ur": len(pre), "uw": 0, "dr": 0, "dw": 0}
+    src = {"u": usrc, "d": dsrc}
+    if not usrc.startswith(pre):
+        return None
+
+    def data(d, kind, b, adv):
+        name = "sU" if d == "u" else "sD"
+        k = d + kind
+        if src[d][pos[k]:pos[k] + len(b)] == b:
+            t = "(sl %s %d %d)" % (name, pos[k], len(b)) if b else "[]"
+        elif len(b) <= 3000:
+            t = common.coq_bytes(b)
+        else:
+            raise ValueError("long")
+        pos[k] += adv
+        return t
+    acts = []
+    try:
+        for e in ev:
+            s_, op = e["s"], e["op"]
+            if op == "r" and s_ == "c" and e["q"] > dial:
+                b = bytes.fromhex(e["d"])
+                acts.append("RlRead DUp %d %s %s" % (e["bl"], data("u", "r", b, len(b)), RERR[e["e"]]))
+            elif op == "r" and s_ == "u":
+                b = bytes.fromhex(e["d"])
+                acts.append("RlRead DDown %d %s %s" % (e["bl"], data("d", "r", b, len(b)), RERR[e["e"]]))
+            elif op == "w":
+                d = "u" if s_ == "u" else "d"
+                b = bytes.fromhex(e["d"])
+                acts.append("RlWrite %s %s %d %s" % ("DUp" if d == "u" else "DDown", data(d, "w", b, e["n"]), e["n"], RERR[e["e"]]))
+            elif op == "close":
+                acts.append("RlClose")
+    except ValueError:
+        return None
+    return "let sU := %s in let sD := %s in CRelay (sl sU 0 %d) [%s]" % (parts_term(c["usrc"]), parts_term(c["dsrc"]), len(pre), ";".join(acts))
+
+
 def to_coq(c, o):
     k = c["k"]
     if o.get("panic") or o.get("hang"):
         return None
+    if k in RELAY_KINDS:
+        return relay_term(c, o) if "ev" in o else None
     if k == "socks":
         return "CSocks %s %s %s %s %s %s" % (auth_term(c), cbool(c["dudp"]), cbool(c["dial"]), cbool(c["udp"]),
                                            script(c["chunks"]), sev_terms(o["ev"]))
@@ -879,6 +1135,12 @@ def klass(c, o):
     k = c["k"]
     if o.get("panic"):
         return k + ":panic"
+    if k in RELAY_KINDS:
+        hmode, cend, uend, ov = c["shape"].split("/")
+        ev = o.get("ev") or []
+        both = all(any(e["op"] == "w" and e["s"] == s_ and e["n"] > 0 for e in ev) for s_ in "cu")
+        return "%s:%s:%s:%s%s%s" % (k, "pipelined" if hmode == "pipe" else "separate", cend, "overlap" if ov != "none" else "nooverlap",
+                                   ":duplex" if both else "", ":refused" if any(e["op"] == "w" and e["e"] == "err" for e in ev) else "")
     if k in ("socks", "http"):
         ev = o.get("ev") or []
         ts = [e["t"] for e in ev]
@@ -907,6 +1169,8 @@ def klass(c, o):
 
 def nontrivial(c, o):
     k = c["k"]
+    if k in RELAY_KINDS:
+        return any(e["op"] == "w" and e["n"] > 0 for e in (o.get("ev") or []))
     if k in ("socks", "http"):
         ev = o.get("ev") or []
         return any(e["t"] in ("tcp", "udp") for e in ev) or (c["auth"] and len(ev) >= 2)
@@ -942,6 +1206,7 @@ def split_cases(cases):
 
 def run_go_all(ctx, cases, tag="main", race=False):
     """runs the three harnesses in parallel; returns (ok, outs aligned with cases, params, logs)"""
+    make_relay_common()
     groups, idx = split_cases(cases)
     outs = [None] * len(cases)
     params = []
@@ -1060,7 +1325,7 @@ def run(ctx):
         ctx.say("model/implementation disagree on %d case(s) (implementation also violates the property directly)" % len(mism))
     ctx.say("input classes: " + json.dumps(hist, sort_keys=True))
     samples = [{"case": c, "impl": {k: v for k, v in o.items() if k != "i"}} for _, c, o in pairs[:2]]
-    for kind in ("http", "mux"):
+    for kind in ("http", "mux", "rhttp"):
         for _, c, o in pairs:
             if c["k"] == kind and nontrivial(c, o):
                 samples.append({"case": c, "impl": {k: v for k, v in o.items() if k != "i"}})
@@ -1076,6 +1341,7 @@ def replay(ctx, path):
     if not c:
         print("replay file names a broken obligation/correspondence, no concrete input:", r["what"])
         return 1
+    make_relay_common()
     ok, outs, _, log = common.run_go_cases(ctx, GO_ALL[KIND_SPEC[c["k"]]], [c], tag="replay")
     print(json.dumps(outs, indent=1))
     return 0 if outs and outs[0].get("ok") else 1
@@ -1087,7 +1353,10 @@ LEVEL_TEXT = ("Machine-checked Coq theorems over a hand-written Gallina model of
               "dial addresses), and the shared-port mux as a labelled "
               "transition system over its atomic sections (connWithOneByte included): for every client byte script and chunking, no upstream "
               "TCP/UDP open without credentials AuthFunc accepted; pipelined bytes reach the upstream unmodified for every read-size sequence; "
-              "every run of the mux hands a connection to at most one sub-listener, the one its first byte selects. The model is tied to /repo "
+              "every run of the mux hands a connection to at most one sub-listener, the one its first byte selects; the relay phase as an LTS of the "
+              "two io.Copy loops with explicit buffers: in every interleaving and for every behaviour of the conns each direction's sink gets a prefix of "
+              "(at EOF: exactly) what its source handed out, each Write carries the chunk of the same direction's own last Read, and a direction's "
+              "run is unchanged by striking the other direction's actions (shared-buffer and error-before-forward variants refuted). The model is tied to /repo "
               "on every run by regenerated constants and a differential run of the three Go packages against the model (vm_compute). The mux replay used for that "
               "(stimuli, quiescence, recorded hand-offs) is proved sound: every accepted history is a run of the LTS with exactly the recorded visible actions, and the "
               "recorded snapshots are states of that run, so the handler theorems hold of the recorded states.")
